@@ -35,7 +35,10 @@ DeepHas(st, kw) == st.kw = kw \/ \E i \in 1..Len(st.subs) : DeepHas(st.subs[i], 
 RECURSIVE ForeignUsesLocalAug(_)
 ForeignUsesLocalAug(st) == (st.kw = "uses" /\ st.arg[1] # "" /\ \E a \in Range(Sub(st, "augment")) : \E u \in Range(Sub(a, "uses")) : u.arg[1] = "")
                            \/ \E i \in 1..Len(st.subs) : ForeignUsesLocalAug(st.subs[i])
-InputClasses(M) == {"feature-in-submodule" : i \in {j \in 1..Len(M) : M[j].kw = "submodule" /\ Has(M[j], "feature")}}
+RECURSIVE ReplaceTwice(_)
+ReplaceTwice(st) == (st.kw = "deviate" /\ st.arg[1] = "replace" /\ \E i, j \in 1..Len(st.subs) : i < j /\ st.subs[i].kw = st.subs[j].kw /\ ~Multi(st.subs[i].kw))
+                    \/ \E i \in 1..Len(st.subs) : ReplaceTwice(st.subs[i])
+InputClasses(M) == {"deviate-replace-property-twice" : i \in {j \in 1..Len(M) : ReplaceTwice(M[j])}} \cup {"feature-in-submodule" : i \in {j \in 1..Len(M) : M[j].kw = "submodule" /\ Has(M[j], "feature")}}
               \cup {"uses-in-augment-with-when" : i \in {j \in 1..Len(M) : AugWhenUses(M[j])}}
               \cup {"local-uses-in-augment-of-foreign-uses" : i \in {j \in 1..Len(M) : ForeignUsesLocalAug(M[j])}}
               \cup {"scoped-grouping-in-submodule" : i \in {j \in 1..Len(M) : M[j].kw = "submodule" /\ \E k \in 1..Len(M[j].subs) : M[j].subs[k].kw # "grouping" /\ DeepHas(M[j].subs[k], "grouping")}}
@@ -692,10 +695,101 @@ RECURSIVE Reprefix(_, _)      \* the same statements with every uses written wit
 Reprefix(stmts, hp) == [i \in 1..Len(stmts) |-> [stmts[i] EXCEPT !.arg = IF stmts[i].kw = "uses" THEN <<hp, @[2]>> ELSE @, !.subs = Reprefix(@, hp)]]
 F15(PS) == UNION { { CaseOf(m, {}, "inline") : m \in F15Sets(p, K, Reprefix(K, "b")) } : p \in PS, K \in F15Kids("") }
 
+\* ---------------------------------------------------------------- round 7
+\* F16: a statement on the uses / augment ITSELF (status, when, if-feature, description, reference) together with a
+\* different statement of the same kind on the nodes it introduces (directly and one level down): the result is the
+\* inlined definition - an introduced node keeps what it states itself, gets the status of the uses / augment only when
+\* it states none, both conditions and both if-features apply, description / reference of the uses stay with the uses.
+StP(x) == IF x = "" THEN <<>> ELSE <<P("status", x)>>
+St4 == {"", "current", "deprecated", "obsolete"}
+F16Feats == <<Feature("f1", <<>>), Feature("f2", <<>>)>>
+F16BodyS(sn, sc) == << Leaf("x", StP(sn)), Cont("c", StP(sn) \o <<Leaf("y", StP(sc))>>), Choice("ch", <<Case("ca", StP(sc) \o <<Leaf("q", <<>>)>>)>>), Leaf("z", <<>>) >>
+F16BodyM == << Leaf("x", <<P("when", "w = 'n'"), IfF("", "f2"), P("description", "own x"), P("reference", "own ref of x"), P("status", "obsolete")>>),
+               Cont("c", <<P("description", "own c"), P("reference", "own ref of c"), Leaf("y", <<P("description", "own y"), IfF("", "f2"), P("when", "../w")>>)>>),
+               Leaf("z", <<>>) >>
+F16Sites(X, body, stop) == {
+   \* uses in a container, at the top of the module, of a grouping of another module
+   << Module("a", <<>>, F16Feats \o <<Grouping("g", body), Cont("top", stop \o <<Leaf("w", <<>>), Uses("", "g", X)>>)>>) >>,
+   << Module("a", <<>>, F16Feats \o <<Grouping("g", body), Uses("", "g", X)>>) >>,
+   << Module("b", <<>>, F16Feats \o <<Grouping("g", body)>>), Module("a", <<"b">>, F16Feats \o <<Cont("top", stop \o <<Leaf("w", <<>>), Uses("b", "g", X)>>)>>) >>,
+   \* module-level augment: same module, another module
+   << Module("a", <<>>, F16Feats \o <<Cont("top", stop \o <<Leaf("w", <<>>)>>), Augment(<<"", "top">>, X \o body)>>) >>,
+   << Module("a", <<>>, <<Cont("top", stop \o <<Leaf("w", <<>>)>>)>>), Module("c", <<"a">>, F16Feats \o <<Augment(<<"a", "top">>, X \o body)>>) >>,
+   \* augment inside a uses; uses inside an augment
+   << Module("a", <<>>, F16Feats \o <<Grouping("g0", <<Cont("in", <<Leaf("w", <<>>)>>)>>), Cont("top", stop \o <<Uses("", "g0", <<Augment(<<"", "in">>, X \o body)>>)>>)>>) >>,
+   << Module("a", <<>>, F16Feats \o <<Grouping("g", body), Cont("top", stop \o <<Leaf("w", <<>>)>>), Augment(<<"", "top">>, <<Uses("", "g", X)>>)>>) >> }
+F16XM == { <<P("when", "w = 'u'")>>, <<IfF("", "f1")>>, <<P("description", "about the uses")>>, <<P("reference", "ref of the uses")>>, <<P("status", "deprecated")>>,
+           <<P("description", "about the uses"), P("when", "w = 'u'"), IfF("", "f1"), P("reference", "ref of the uses"), P("status", "deprecated")>> }
+F16E(k) == {<<m, f>> : m \in {"a", "b", "c"}, f \in k}
+F16(u_) ==
+     UNION { { CaseOf(m, {}, "inline") : m \in F16Sites(StP(su), F16BodyS(sn, sc), <<>>) } : su \in St4, sn \in St4, sc \in {"", "deprecated", "obsolete"} }
+\cup UNION { { CaseOf(m, {}, "inline") : m \in {x \in F16Sites(StP(su), F16BodyS(sn, ""), <<P("status", "deprecated")>>) : Len(x) = 1} } : su \in St4, sn \in St4 }
+\cup UNION { { CaseOf(m, F16E(k), "inline") : m \in F16Sites(X, F16BodyM, <<>>) } : X \in F16XM, k \in SUBSET {"f1", "f2"} }
+
+\* G10: one deviate statement naming the same single-instance property twice (equal and different values, both
+\* orders), and the two spread over two deviate statements of every pair of kinds - on targets that have and that have
+\* not the property.  The grammar takes each of these properties at most once per deviate statement; across deviate
+\* statements the edit is judged where it does not depend on their order.
+G10Kws == <<"config", "default", "mandatory", "min-elements", "max-elements", "units", "type">>
+G10Vals(kw, t) == CASE kw = "config" -> <<"false", "true">> [] kw = "default" -> (IF t.kw = "choice" THEN <<"cb", "ca">> ELSE <<"v", "d">>)
+                    [] kw = "mandatory" -> <<"true", "false">> [] kw = "min-elements" -> <<"1", "2">> [] kw = "max-elements" -> <<"3", "5">>
+                    [] kw = "units" -> <<"u", "w">> [] kw = "type" -> <<"int8", "string">>
+G10P(kw, v) == IF kw = "type" THEN Ty(v) ELSE P(kw, v)
+G10Hows == {"add", "replace", "delete"}
+\* the properties the grammar of each kind of deviate statement knows (the others are refused whatever their number: G4)
+G10Takes(how, kw) == CASE how = "add" -> kw # "type" [] how = "delete" -> kw \in {"units", "default"} [] OTHER -> TRUE
+G10Dev(t, dvs) == CaseOf(<<G4Base, DevMod(<<Deviation(<<"a", "top", "a", t.arg[1]>>, dvs)>>)>>, {}, "edit")
+G10(two) == UNION { UNION {
+     LET t == G4Targets[ti]  kw == G10Kws[ki]  v == G10Vals(kw, t) IN
+     IF ~AllowedOn(kw, t.kw) THEN {} ELSE
+          { G10Dev(t, <<Deviate(how, <<G10P(kw, v[i]), G10P(kw, v[j])>>)>>) : how \in {h \in G10Hows : G10Takes(h, kw)}, i \in 1..2, j \in 1..2 }
+     \cup { G10Dev(t, <<Deviate(h[1], <<G10P(kw, v[i])>>), Deviate(h[2], <<G10P(kw, v[j])>>)>>) : h \in {x \in two : G10Takes(x[1], kw) /\ G10Takes(x[2], kw)}, i \in 1..2, j \in 1..2 }
+     \* spread over two deviation statements of the same target (only what no order of application can change:
+     \* the second add finds the property, the second delete does not, two equal replacements are one)
+     \cup { CaseOf(<<G4Base, DevMod(<<Deviation(<<"a", "top", "a", t.arg[1]>>, <<Deviate(hv[1], <<G10P(kw, v[hv[2]])>>)>>),
+                                      Deviation(<<"a", "top", "a", t.arg[1]>>, <<Deviate(hv[1], <<G10P(kw, v[hv[3]])>>)>>)>>)>>, {}, "edit")
+             : hv \in {x \in {<<"add", 1, 2>>, <<"add", 2, 2>>, <<"replace", 1, 1>>, <<"replace", 2, 2>>, <<"delete", 1, 1>>, <<"delete", 2, 2>>} : G10Takes(x[1], kw)} }
+     \* (the two not next to each other: a property that may repeat in between)
+     \cup (IF AllowedOn("must", t.kw) THEN { G10Dev(t, <<Deviate("add", <<G10P(kw, v[i]), P("must", "9 = 9"), G10P(kw, v[3 - i])>>)>>) : i \in {j \in 1..2 : G10Takes("add", kw)} } ELSE {})
+   : ki \in 1..Len(G10Kws) } : ti \in 1..Len(G4Targets) }
+G10Same == { <<h, h>> : h \in G10Hows }
+
+\* G11: the set of enabled features is an input with more than one way in.  One tree (features with a dependency, a
+\* feature of another module, a node with two if-features); the enabled set reaches the compiler through every kind of
+\* checker alone, through MultiFeatureCheckers with members that agree, disagree (both orders) and are silent, with nil
+\* members, nested, and through compile.Config (capability directory + Config.Features).
+G11Mods == << Module("b", <<>>, <<Feature("g", <<>>), Leaf("bl", <<IfF("", "g")>>)>>),
+              Module("a", <<"b">>, <<Feature("base", <<>>), Feature("extra", <<IfF("", "base")>>), Feature("solo", <<>>),
+                                    Cont("top", <<Leaf("always", <<>>), Leaf("onbase", <<IfF("", "base")>>), Leaf("onextra", <<IfF("", "extra")>>),
+                                                  Leaf("onsolo", <<IfF("", "solo")>>), Leaf("ong", <<IfF("b", "g")>>),
+                                                  Cont("both", <<IfF("", "base"), IfF("", "solo"), Leaf("in", <<>>)>>)>>)>>) >>
+IdB == <<"a", "base">>
+IdX == <<"a", "extra">>
+IdO == <<"a", "solo">>
+IdG == <<"b", "g">>
+G11Subs == { <<>>, <<IdB>>, <<IdX>>, <<IdB, IdX>>, <<IdO, IdG>>, <<IdB, IdX, IdO, IdG>>, <<<<"a", "nosuch">>, IdO>> }
+G11Pool(u_) == { SrcNames(b, x) : b \in BOOLEAN, x \in G11Subs }
+          \cup { SrcTable(<<IdB>>, <<IdX>>), SrcTable(<<IdX, IdO>>, <<IdB>>), SrcTable(<<>>, <<IdB, IdG>>), SrcTable(<<IdB, IdX, IdO, IdG>>, <<>>) }
+          \cup { SrcDirs(<<IdB>>, <<>>), SrcDirs(<<IdB, IdX>>, <<IdG>>), SrcDirs(<<>>, <<>>), SrcDirs(<<IdB, IdX, IdO, IdG>>, <<>>) }
+          \cup { SrcNil }
+CaseSrc(m, src) == [m |-> m, e |-> SrcEnabled(src, DeclIds(m)), alt |-> "none", fl |-> <<>>, src |-> src]
+G11Srcs(u_) ==
+     G11Pool(0)
+\cup { SrcMulti(<<x>>) : x \in G11Pool(0) }
+\cup { SrcMulti(<<x, y>>) : x \in G11Pool(0), y \in G11Pool(0) }
+\cup { SrcMulti(<<x, SrcNil, y, SrcNil>>) : x \in {SrcNames(TRUE, <<IdB, IdX>>), SrcNames(FALSE, <<IdB>>)}, y \in G11Pool(0) }
+\cup { SrcMulti(<<x, y, x>>) : x \in {SrcNames(TRUE, <<IdB, IdX, IdO, IdG>>), SrcNames(FALSE, <<IdB, IdO>>)}, y \in G11Pool(0) }
+\cup { SrcMulti(<<SrcMulti(<<x, y>>), z>>) : x \in {SrcNames(TRUE, <<IdB, IdX>>)}, y \in {SrcNames(FALSE, <<IdB>>), SrcNames(TRUE, <<IdO>>), SrcNil}, z \in G11Pool(0) }
+\cup { SrcMulti(<<z, SrcMulti(<<x, y>>)>>) : x \in {SrcNames(TRUE, <<IdB, IdX>>)}, y \in {SrcNames(FALSE, <<IdB>>), SrcNames(TRUE, <<IdO>>), SrcNil}, z \in G11Pool(0) }
+\cup { SrcConfig(caps, f) : caps \in {<<>>, <<IdB>>, <<IdB, IdX, IdO, IdG>>, <<IdX, IdG>>}, f \in G11Pool(0) }
+\cup { SrcConfig(caps, SrcMulti(<<x, y>>)) : caps \in {<<IdB, IdX>>, <<IdO>>}, x \in {SrcNames(TRUE, <<IdB, IdX, IdO>>), SrcNames(FALSE, <<IdB>>)}, y \in {SrcNames(FALSE, <<IdX, IdO>>), SrcNames(TRUE, <<IdB, IdG>>), SrcNil} }
+G11(u_) == { CaseSrc(G11Mods, s) : s \in G11Srcs(0) }
+
 Family(name) == CASE name = "F1" -> F1(Bodies(0)) [] name = "F1q" -> F1(BodiesA(0)) [] name = "F2" -> F2(0) [] name = "F3" -> F3(0) [] name = "F4" -> F4(0) [] name = "F5" -> F5(0) [] name = "F6" -> F6(F6Extras(0)) [] name = "F6q" -> F6({<<>>, <<P("when", "1 = 1")>>}) [] name = "F7" -> F7(0) [] name = "F8" -> F8(0)
                   [] name = "G1c" -> G1K("container") [] name = "G1l" -> G1K("list") [] name = "G1h" -> G1K("choice")
                   [] name = "G2a" -> G2D(1) [] name = "G2b" -> G2D(2) [] name = "G2c" -> G2D(3) [] name = "G2d" -> G2D(4) [] name = "G2e" -> G2D(5)
                   [] name = "G2X" -> G2X(0) [] name = "G2S" -> G2S(0) [] name = "G3" -> G3(0) [] name = "G4" -> G4(0) [] name = "G4X" -> G4X(0)
                   [] name = "H1q" -> H1(7) [] name = "H1" -> H1(11) [] name = "H2" -> H2(0) [] name = "H3" -> H3(0) [] name = "H4" -> H4(0) [] name = "F9" -> F9(0) [] name = "F10" -> F10(0) [] name = "F11" -> F11(0) [] name = "F12" -> F12(0) [] name = "G5" -> G5(0) [] name = "G6" -> G6(0) [] name = "F13" -> F13(0) [] name = "F14" -> F14(0) [] name = "G7" -> G7(0) [] name = "G2T" -> G2T(0) [] name = "H5" -> H5(0) [] name = "H6" -> H6(0)
                   [] name = "G8" -> G8(0) [] name = "G9" -> G9(0) [] name = "F15" -> F15(F15Paths) [] name = "F15q" -> F15({<<"", "c">>, <<"", "c", "", "cc">>, <<"", "ch", "", "ca">>})
+                  [] name = "F16" -> F16(0) [] name = "G10" -> G10({<<h1, h2>> : h1 \in G10Hows, h2 \in G10Hows}) [] name = "G10q" -> G10(G10Same) [] name = "G11" -> G11(0)
 =============================================================================
